@@ -57,11 +57,18 @@ fn mix(s: u64, b: u8) -> u64 {
     s.rotate_left(9).wrapping_add(b as u64).wrapping_add(0x9E37_79B9_7F4A_7C15) ^ 0x5555_AAAA_3333_CCCC
 }
 
+/// Largest chunk a single `input` call may carry in a harness (checked, not assumed). The loop below has this concrete
+/// bound because a chunk length read back from a merged state (e.g. the annex of an `Option<Annex>`) is not a constant
+/// for CBMC, and a loop bounded by it would be unwound for ever.
+pub const MAX_CHUNK: usize = 72;
+
 pub fn input_fold(e: &mut sha256::HashEngine, data: &[u8]) {
     let m = mirror_mut(e);
     let mut s = ((m.h[0] as u64) << 32) | (m.h[1] as u64);
+    assert!(data.len() <= MAX_CHUNK, "hash model: chunk larger than MAX_CHUNK");
     let mut i = 0;
-    while i < data.len() {
+    while i < MAX_CHUNK {
+        if i >= data.len() { break; }
         s = mix(s, data[i]);
         i += 1;
     }
@@ -69,6 +76,22 @@ pub fn input_fold(e: &mut sha256::HashEngine, data: &[u8]) {
     m.h[1] = s as u32;
     m.bytes_hashed = m.bytes_hashed.wrapping_add(data.len() as u64);
 }
+
+/// `std::io::Write::write_all` (the *default* method, used by the hash engines; sinks that override it are unaffected).
+/// The default body loops `while !buf.is_empty() { write(buf) ... }`, which CBMC cannot bound when the chunk length is
+/// not a constant. Model: one `write` call that must consume the whole chunk -- exact for the hash engines, whose
+/// `write` is `input(buf); Ok(buf.len())`.
+pub trait WriteAllOnce: std::io::Write {
+    fn write_all_once(&mut self, buf: &[u8]) -> std::io::Result<()> {
+        match self.write(buf) {
+            Ok(n) => {
+                if n == buf.len() { Ok(()) } else { Err(std::io::Error::from(std::io::ErrorKind::WriteZero)) }
+            }
+            Err(e) => Err(e),
+        }
+    }
+}
+impl<W: std::io::Write + ?Sized> WriteAllOnce for W {}
 
 pub fn digest_of_state(s: u64, n: u64) -> [u8; 32] {
     let mut out = [0u8; 32];
